@@ -321,7 +321,8 @@ func GenValid(r *rand.Rand, profile string) *Policy {
 				continue
 			}
 			cs := append([]Cond{}, src.Conds...)
-			switch r.Intn(6) {
+			atFront := false
+			switch r.Intn(9) {
 			case 0: // exact duplicate
 			case 1:
 				cs[len(cs)-1].Val = Operand(r)
@@ -338,6 +339,21 @@ func GenValid(r *rand.Rand, profile string) *Policy {
 				}
 			case 5:
 				cs[0].Op = Ops[r.Intn(len(Ops))]
+			case 6: // a strict prefix of the earlier list (the more general alternative comes later)
+				if len(cs) > 1 {
+					cs = cs[:1+r.Intn(len(cs)-1)]
+				}
+			case 7: // an extension of the earlier list
+				cs = append(cs, Cond{Arg: uint32(r.Intn(6)), Op: Ops[r.Intn(len(Ops))], Val: Operand(r)})
+			case 8: // a strict prefix that comes first
+				if len(cs) > 1 {
+					cs = cs[:1+r.Intn(len(cs)-1)]
+				}
+				atFront = true
+			}
+			if atFront {
+				g.WithConds = append([]NameConds{{Name: src.Name, Conds: cs}}, g.WithConds...)
+				continue
 			}
 			g.WithConds = append(append([]NameConds{}, g.WithConds...), NameConds{Name: src.Name, Conds: cs})
 		}
